@@ -11,7 +11,7 @@ from __future__ import annotations
 import copy
 
 from .. import pkggen as pg
-from ..core import Check, Viol, gated_features, rng_for
+from ..core import Check, Viol, gated_features, rng_for, noise_opts
 from ..run import Case, run_many
 from ..stubs import StubSet
 from . import c09, c10, c11
@@ -198,7 +198,7 @@ def gen(tier: str, seed: int):
         for m in targets:
             variants, _users = make_variants(rng, base, m)
             variants.append(("permute-declarations", permuted(rng, base, m)))
-            groups.append((f"g{i}-{m.name}", base, m, variants, ["-nc"] if i % 2 else []))
+            groups.append((f"g{i}-{m.name}", base, m, variants, (["-nc"] if i % 2 else []) + noise_opts(seed, PID, i)))
     return groups
 
 
